@@ -13,6 +13,7 @@ import (
 	"encoding/json"
 	"fmt"
 	"io"
+	"path/filepath"
 	"sort"
 	"strconv"
 	"strings"
@@ -24,20 +25,20 @@ import (
 )
 
 type fPkg struct {
-	Name, Version, Arch, Desc, License, Origin, Maint, URL, Commit, Checksum string // hex
-	Deps, Provides, InstallIf, Replaces                                         []string // hex items
-	Size, ISize, Prio                                                           uint64
-	BuildTime                                                                   int64
-	ZeroTime                                                                    bool
+	Name, Version, Arch, Desc, License, Origin, Maint, URL, Commit, Checksum string   // hex
+	Deps, Provides, InstallIf, Replaces                                      []string // hex items
+	Size, ISize, Prio                                                        uint64
+	BuildTime                                                                int64
+	ZeroTime                                                                 bool
 }
 
 type fFile struct {
-	Name  string // hex
-	Dir   bool
-	Mode  int64
-	Uid   int
-	Gid   int
-	Csum  string // hex of the PAX record value
+	Name string // hex
+	Dir  bool
+	Mode int64
+	Uid  int
+	Gid  int
+	Csum string // hex of the PAX record value
 }
 
 type fIPkg struct {
@@ -361,13 +362,74 @@ func writeInstalled(pkgs []*apk.Package, files [][]tar.Header) (string, error) {
 	return string(b), err
 }
 
+// sortSizeCap mirrors Formats.sortSizeCap: above this many predicted records the real sortTarHeaders is not run (F16i).
+const sortSizeCap = 100000
+
+// predictSortSize walks the header list the way sortTarHeaders / sortChildrenTarHeaders do (same maps, same
+// start set, same order) but only counts the records that would be emitted, and gives up above limit.  It is
+// a prediction only: the Lean driver computes the size again with the model's counting walk and answers
+// `blowup` / `blowup2` itself, so a wrong prediction here shows up as a disagreement, not as a skipped case.
+func predictSortSize(headers []tar.Header, limit int) int {
+	children := map[string][]string{}
+	all := map[string]tar.Header{}
+	for _, h := range headers {
+		c := filepath.Clean(h.Name)
+		if c == "." {
+			continue
+		}
+		d := filepath.Dir(c)
+		children[d] = append(children[d], c)
+		all[c] = h
+	}
+	var top []string
+	for d := range children {
+		if filepath.Dir(d) == "." {
+			top = append(top, d)
+		}
+	}
+	count := 0
+	var walk func(cs []string, depth int)
+	walk = func(cs []string, depth int) {
+		if depth > len(headers)+2 {
+			return
+		}
+		for _, c := range cs {
+			if h, ok := all[c]; ok && h.Typeflag != tar.TypeDir {
+				count++
+			}
+		}
+		for _, c := range cs {
+			if count > limit {
+				return
+			}
+			if h, ok := all[c]; ok && h.Typeflag == tar.TypeDir {
+				count++
+				walk(children[c], depth+1)
+			}
+		}
+	}
+	walk(top, 0)
+	return count
+}
+
+func anyOverCap(files [][]tar.Header) bool {
+	for _, fs := range files {
+		if predictSortSize(fs, sortSizeCap) > sortSizeCap {
+			return true
+		}
+	}
+	return false
+}
+
 type idbOut struct {
-	werr   bool
-	text   string
-	rerr   bool
-	parsed []*apk.InstalledPackage
-	text2  string
-	werr2  bool
+	blowup  bool // F16i: the first write was not run, the predicted size of sortTarHeaders' output is above sortSizeCap
+	blowup2 bool // F16i: the re-write of what was read back was not run for the same reason
+	werr    bool
+	text    string
+	rerr    bool
+	parsed  []*apk.InstalledPackage
+	text2   string
+	werr2   bool
 }
 
 func goIdbRW(ips []fIPkg) idbOut {
@@ -380,6 +442,10 @@ func goIdbRW(ips []fIPkg) idbOut {
 		}
 	}
 	var o idbOut
+	if anyOverCap(files) {
+		o.blowup = true
+		return o
+	}
 	text, err := writeInstalled(pkgs, files)
 	if err != nil {
 		o.werr = true
@@ -404,12 +470,19 @@ func idbOutOfText(text string) idbOut {
 		p2[i] = &ip.Package
 		f2[i] = ip.Files
 	}
+	if anyOverCap(f2) {
+		o.blowup2 = true
+		return o
+	}
 	o.text2, err = writeInstalled(p2, f2)
 	o.werr2 = err != nil
 	return o
 }
 
 func (o idbOut) view(aspect string) string {
+	if o.blowup {
+		return "blowup"
+	}
 	if o.werr {
 		return "werr"
 	}
@@ -443,6 +516,9 @@ func (o idbOut) view(aspect string) string {
 			parts = append(parts, strings.Join(ss, ";"))
 		}
 	default:
+		if o.blowup2 {
+			return "blowup2"
+		}
 		if o.werr2 {
 			return "werr2"
 		}
@@ -620,6 +696,11 @@ func (formatsSuite) Run(raw json.RawMessage) []Step {
 				Trivial: o.werr || o.rerr}
 			if i == 0 {
 				st.Tags = tags
+				if o.blowup {
+					st.Tags = append(st.Tags, "idb.sort:blowup")
+				} else if o.blowup2 {
+					st.Tags = append(st.Tags, "idb.sort:blowup2")
+				}
 			}
 			steps = append(steps, st)
 		}
@@ -637,6 +718,24 @@ func (formatsSuite) Run(raw json.RawMessage) []Step {
 	case "idbseq":
 		// AddInstalledPackage for every package in turn, carrying on after a failed add: a failed add must leave
 		// the db as it was; the db read back must be exactly the successfully added packages
+		var allFiles [][]tar.Header
+		for _, ip := range c.IPkgs {
+			var hs []tar.Header
+			for _, f := range ip.Files {
+				hs = append(hs, f.real())
+			}
+			allFiles = append(allFiles, hs)
+		}
+		if anyOverCap(allFiles) {
+			// F16i: no add is run; the driver predicts the same from the whole sequence
+			wire := wireIPkgsIn(c.IPkgs)
+			var steps []Step
+			for _, asp := range []string{"pkg", "files", "text2"} {
+				steps = append(steps, Step{Line: "f.idb.rw\t" + asp + "\t" + wire, Go: "blowup", Desc: "installed-db sequence of adds (" + asp + ") of " + short(descIPkgs(c.IPkgs)),
+					Tags: []string{"idb.seq:blowup"}})
+			}
+			return steps
+		}
 		a, fsys := newAPK()
 		var okPkgs []fIPkg
 		failed := 0
